@@ -16,7 +16,75 @@ def _c13_gen(r, tier):
     return gen.gen_c13(r)
 
 
+def _c12_gen(r, tier):
+    return gen.gen_c12(r)
+
+
+def _c14_gen(r, tier):
+    return gen.gen_c14(r, tier)
+
+
+def _c06_gen(r, tier):
+    return gen.gen_c06(r, tier)
+
+
+def _c07_gen(r, tier):
+    return gen.gen_c07(r, tier)
+
+
+_PEER_RULE = (
+    "one seeded problem (LP / QP / NLP pools, 40% made infeasible by a contradictory constraint pair), 1-3 solves with a method from "
+    "{auto, linprog, highs, highs-ds, highs-ipm, SLSQP, trust-constr, L-BFGS-B, TNC, BFGS, CG, Newton-CG, COBYLA, Nelder-Mead, Powell}; the "
+    "peer behind the solver seam is per solve: real SciPy (seeded x0/tol/maxiter), real SciPy with a truncated iteration budget, or a scripted "
+    "answer drawn from the method's own (success, status, message) table with x in {what SciPy really returned, a feasible point, a point "
+    "violating a constraint by >= 1e-2, a point violating a declared bound by >= 0.5 (success=True only for methods optyx passes no bounds to)}; "
+    "the SLSQP->trust-constr retry entry can be scripted separately.  Distinct/non-trivial: (solver entries, peer class, x kind, returned status, "
+    "values present)."
+)
+
 PROPS = {
+    "C06": {
+        "gen": _c06_gen,
+        "level": "exploration",
+        "rule": _PEER_RULE + "  Oracle: status OPTIMAL => every constraint (harness-side Constraint.violation on the returned values) and every "
+        "declared bound holds within max(1e-5, 10*tol) + 1e-5*scale.",
+        "assumptions": COMMON_ASSUMPTIONS + ["scripted answers are restricted to (success, status, message, x) combinations SciPy documents or was observed to produce; fun is always the objective callback's value at x"],
+    },
+    "C07": {
+        "gen": _c07_gen,
+        "level": "exploration",
+        "rule": _PEER_RULE + "  Oracle: whenever values and objective_value are returned, objective_value = the user's objective expression "
+        "evaluated at the returned values (1e-9 relative), keys(values) = exactly the variables the model mentions (computed from the harness's own "
+        "AST), and every scalar / vector / matrix handle retrieves its values with the declared shape and position.",
+        "assumptions": COMMON_ASSUMPTIONS + ["for a fixed solver answer C07 is a pure function; the simulation contributes the answer space (arbitrary points on every termination path, the retry path, cached second solves)"],
+    },
+    "C12": {
+        "gen": _c12_gen,
+        "level": "exploration",
+        "rule": (
+            "seeded histories over {Parameter.set / VectorParameter.set / element set, solve(method), evaluate, compile-early-call-late of "
+            "compile_expression / compile_gradient / compile_jacobian / compile_hessian / CompiledExpression / compile_to_dict_function / "
+            "symbolic gradient, objective and constraint edits} on models with parameters in 8 placements (target shift, objective coefficient, "
+            "Hessian entry, inside exp, linear coefficient, cross-term coefficient, constraint rhs, constraint coefficient, VectorParameter elements). "
+            "Every observation is compared tightly with R1 = from-scratch model with fresh Parameters holding the current values in a pristine "
+            "forked process, and with R2 = the same with Constants (tight for pointwise observations; objective value at 5e-3 for optimal/optimal "
+            "solves of strictly convex members with explicit SLSQP/trust-constr).  Distinct/non-trivial: (op kind, solver method entered, outcome, "
+            "cache-fill state)."
+        ),
+        "assumptions": COMMON_ASSUMPTIONS,
+    },
+    "C14": {
+        "gen": _c14_gen,
+        "level": "exploration",
+        "rule": (
+            "seeded histories: a target model M (long-lived copy built before, and/or fresh copy built after) and a prefix of 1-6 adversary models "
+            "that reuse M's variable/parameter names with other values, bounds, domains or structure (plus bare Parameter/Variable expressions as "
+            "LRU keys), each compiled, called and solved; drop_model+gc (id reuse) and flood(k) past the (knob-shrunk or default) LRU capacities. "
+            "Every observation on every model is compared tightly with the same observation on that model built alone in a pristine forked process. "
+            "Distinct/non-trivial: (op kind, solver method entered, outcome, cache-fill state)."
+        ),
+        "assumptions": COMMON_ASSUMPTIONS,
+    },
     "C13": {
         "gen": _c13_gen,
         "level": "exploration",
